@@ -85,6 +85,12 @@ def pending_guard(body, node):
                 d = local_let(body, lhs["id"])
                 if d is not None and place(peel(d)) == "self.yield_memory":
                     return True
+        # `let unconfirmed = self.yield_memory == O + 1; … if unconfirmed`
+        if l[2] and c.get("k") == "Local" and (c.get("ty") == "bool"):
+            d = local_let(body, c["id"])
+            dd = peel(d) if d is not None else {}
+            if dd.get("k") == "Bin" and dd.get("op") == "Eq" and place(peel(dd["l"])) == "self.yield_memory":
+                return True
     return False
 
 
